@@ -127,7 +127,17 @@ pub fn run(ctx: &Ctx) -> i32 {
         let tree_rel = "proj/contracts";
         let tree = format!("{}/{}", base, tree_rel);
         std::fs::create_dir_all(&tree).unwrap();
-        let ents = gen_tree_eligible(rng, &pool, 1, 4, 2);
+        let mut ents = gen_tree_eligible(rng, &pool, 1, 4, 2);
+        // thorough tier, now and then: a tree whose report is larger than 512 KiB (tens of thousands of findings)
+        if ctx.tier == Tier::Thorough && k % 300 == 7 {
+            let mut body = String::from("pragma solidity 0.8.17;\ncontract Many {\n    uint256 n;\n    function f() public {\n");
+            for _ in 0..6000 {
+                body.push_str("        n++;\n");
+            }
+            body.push_str("    }\n}\n");
+            ents = (0..8).map(|i| Ent::File { name: format!("Many{}.sol", i), bytes: body.clone().into_bytes() }).collect();
+            acc.cov("tree:report-larger-than-512-KiB");
+        }
         build(&tree, &ents);
         std::fs::create_dir_all(format!("{}/sub", tree)).unwrap();
         std::fs::write(format!("{}/proj/README.md", base), b"readme\n").unwrap();
@@ -289,8 +299,8 @@ pub fn run(ctx: &Ctx) -> i32 {
             snapshot(&base, "", &mut before_reference);
             let clean = scratch_dir("c18clean");
             let reference = if empty_selection {
-                let nt = format!("{}/cfgdir/none.toml", base);
-                run_solstat(&clean, &["--path", &tree, "--toml", &nt]).ok().and_then(|o| if o.code == Some(0) { o.report } else { None })
+                // nothing selected, nothing found: the report that replaces the previous one has no category part at all (C12)
+                Some(vec![])
             } else {
                 run_solstat(&clean, &["--path", &tree]).ok().and_then(|o| if o.code == Some(0) { o.report } else { None })
             };
